@@ -19,7 +19,13 @@
 //!  * `wrong-connection`— it was delivered on a connection other than the one that was active
 //!                        for the destination when the relay read the frame;
 //!  * `reordered`       — datagrams of one sending connection to one connection overtook each other;
-//!  * `wrong-endpoint`  — the receiving connection belongs to another endpoint id.
+//!  * `wrong-endpoint`  — the receiving connection belongs to another endpoint id;
+//!  * `forwardable-dropped` (completeness) — a datagram frame that the REAL decoder accepted, whose
+//!                        relay→client frame passes the REAL forwarder check (`ensure_sendable` via
+//!                        `RelayedStream::start_send`), addressed to an endpoint whose active
+//!                        connection was registered, running and had queue room at that moment,
+//!                        was not delivered on that connection although its actor ran (the
+//!                        connection stayed alive, was not cancelled and is not stalled at the end).
 #[path = "../relayreg.rs"]
 mod relayreg;
 use bytes::Bytes;
@@ -499,6 +505,9 @@ impl Prop for C04 {
             "1;reg 0 2;reg 1 2;reg 2 2;stall 0;send 1 0 s 0 0 a1;send 2 0 s 0 0 b1;send 1 0 s 0 0 a2;unstall 0;send 2 0 s 0 0 b2",
             // sizes at the limits of the decoder (65503 / 65501) and of the forwarder (65502 / 65500)
             "2;reg 0 2;reg 1 2;send 1 0 s 0 0 p65502.1;send 1 0 s 0 0 p65503.1;send 1 0 b 0 9 p65500.1;send 1 0 b 0 9 p65501.1;send 1 0 b 0 0 p65501.2;send 1 0 s 0 0 -;send 1 0 s 0 0 aa",
+            // completeness at the limits: single 65500..65503, batch 65499..65501 (with and without a segment size)
+            "2;reg 0 2;reg 1 2;send 1 0 s 0 0 p65500.2;send 1 0 s 1 0 p65501.2;send 1 0 s 2 0 p65502.2;send 1 0 s 3 0 p65503.2;send 1 0 b 0 7 p65499.2;send 1 0 b 1 7 p65500.2;send 1 0 b 2 7 p65501.3;send 1 0 b 0 0 p65499.3;send 1 0 b 0 0 p65500.3",
+            "4;reg 0 2;reg 1 2;stall 0;send 1 0 s 0 0 p65500.2;send 1 0 s 1 0 p65501.2;send 1 0 s 2 0 p65502.2;send 1 0 b 1 7 p65500.2;send 1 0 s 0 0 aa;unstall 0",
             // one byte too long for the decoder: the SENDER's connection ends
             "2;reg 0 2;reg 1 2;send 1 0 s 0 0 p65504.1;send 1 0 s 0 0 aa",
             "2;reg 0 2;reg 1 2;send 1 0 b 0 5 p65502.1;send 1 0 s 0 0 aa",
@@ -529,6 +538,7 @@ impl Prop for C04 {
         for s in [
             "2;reg 0 2;reg 1 1;wsend 0 1 0 0 aa;wsend 0 1 1 0 bb;wsend 0 1 2 1200 p2400.1;wsend 0 1 3 65535 0102;wsend 1 0 3 1 cc;wsend 0 0 1 0 dd",
             "2;reg 0 2;reg 1 2;wsend 1 0 0 0 p65502.1;wsend 1 0 0 0 p65503.1;wsend 1 0 0 9 p65500.1;wsend 1 0 0 9 p65501.1;wsend 1 0 0 0 -;wsend 1 0 1 0 aa",
+            "2;reg 0 1;reg 1 2;wsend 1 0 0 0 p65500.2;wsend 1 0 1 0 p65501.2;wsend 1 0 2 0 p65502.2;wsend 1 0 3 0 p65503.2;wsend 1 0 0 7 p65499.2;wsend 1 0 1 7 p65500.2;wsend 1 0 2 7 p65501.3",
             "2;reg 0 2;reg 1 2;wsend 1 0 0 0 p65504.1;wsend 0 1 0 0 aa",
             "2;reg 0 2;reg 1 2;wraw 1 0401;ping 0 0102030405060708;wsend 0 1 0 0 aa",
             "2;reg 0 1;reg 1 2;reg 0 2;stall 2;wsend 1 0 2 3 010203040506;reg 0 1;wsend 1 0 1 0 0a;unstall 2;close 3;wsend 1 0 3 0 0b;close 1",
@@ -586,6 +596,35 @@ impl Prop for C04 {
     }
 }
 
+/// The relay reads record `ri`'s frame now: decide, independently of the model, whether it has
+/// to queue it — the REAL decoder accepts the frame, the REAL forwarder check accepts the frame
+/// the relay would build, the destination's active connection exists and has queue room.
+fn accept(
+    recs: &mut [Rec],
+    ri: usize,
+    prev: &Snapshot,
+    stalled: &[bool],
+    queued: &mut [usize],
+    used: &mut BTreeMap<usize, usize>,
+    cap: usize,
+) {
+    let dst = recs[ri].dst;
+    let target = prev.entries.get(&dst).map(|e| e.0);
+    recs[ri].target = target;
+    let Some(t) = target else { return };
+    let Some((k, ecn, seg, contents)) = real_decode_datagram(&recs[ri].frame) else { return };
+    if k != *key(dst).as_bytes() || !real_forwardable(recs[ri].src, ecn, seg, &contents) {
+        return;
+    }
+    // a stalled connection's queue keeps what was accepted earlier; an unstalled one only holds
+    // what arrived within this step (its actor has not run yet)
+    let occupied = if stalled[t] { &mut queued[t] } else { used.entry(t).or_insert(0) };
+    if *occupied < cap {
+        *occupied += 1;
+        recs[ri].must = true;
+    }
+}
+
 struct Rec {
     /// the sending connection (order is kept per sending connection: two connections of one
     /// endpoint id are read by two independent actors)
@@ -599,9 +638,13 @@ struct Rec {
     target: Option<usize>,
     consumed: bool,
     skipped: bool,
+    /// the bytes of the client → relay frame
+    frame: Vec<u8>,
+    /// the relay accepted it for `target` (decoder ok, forwardable, queue room): it must arrive
+    must: bool,
 }
 
-fn oracle(_script: &Script, tr: &Trace, ex: &mut Exec) {
+fn oracle(script: &Script, tr: &Trace, ex: &mut Exec) {
     let mut recs: Vec<Rec> = Vec::new();
     let mut nconn = 0usize;
     let mut ended: Vec<bool> = Vec::new();
@@ -609,6 +652,11 @@ fn oracle(_script: &Script, tr: &Trace, ex: &mut Exec) {
     let mut cancelled: Vec<bool> = Vec::new();
     // per stalled connection: record indices not yet read by the relay; None = stream ended
     let mut backlog: Vec<Vec<Option<usize>>> = Vec::new();
+    // completeness bookkeeping: packets waiting in a stalled connection's queue; connections
+    // that may legitimately not deliver what is queued for them (ended, cancelled, shut down)
+    let mut queued: Vec<usize> = Vec::new();
+    let mut excused: Vec<bool> = Vec::new();
+    let cap = if script.cap == 0 { iroh_relay::protos::relay::PER_CLIENT_SEND_QUEUE_DEPTH } else { script.cap };
     let mut prev = Snapshot::default();
     let mut delivered = 0usize;
     let mut displaced_delivery = false;
@@ -617,6 +665,18 @@ fn oracle(_script: &Script, tr: &Trace, ex: &mut Exec) {
             ex.violation("timeout", format!("step {i} did not reach quiescence"));
             return;
         }
+        // packets accepted in this step for connections that are not stalled
+        let mut used: BTreeMap<usize, usize> = BTreeMap::new();
+        if matches!(st.op, Op::Shutdown | Op::ShutReg { .. }) {
+            for e in excused.iter_mut() {
+                *e = true;
+            }
+            // `Clients::shutdown` cancels every actor: a stalled one exits when it resumes,
+            // without reading what its client sent meanwhile
+            for c in cancelled.iter_mut() {
+                *c = true;
+            }
+        }
         match &st.op {
             Op::Reg { .. } | Op::ShutReg { .. } => {
                 nconn += 1;
@@ -624,9 +684,12 @@ fn oracle(_script: &Script, tr: &Trace, ex: &mut Exec) {
                 stalled.push(false);
                 cancelled.push(false);
                 backlog.push(Vec::new());
+                queued.push(0);
+                excused.push(false);
             }
             Op::Stall { c } if *c < nconn && !ended[*c] => stalled[*c] = true,
             Op::Close { c } | Op::Bad { c } if *c < nconn && stalled[*c] => backlog[*c].push(None),
+            Op::Close { c } | Op::Bad { c } if *c < nconn => excused[*c] = true,
             Op::Disc { id, sel } => {
                 if let Some((a, ina)) = prev.entries.get(id) {
                     for c in ina.iter().chain([a]) {
@@ -635,6 +698,9 @@ fn oracle(_script: &Script, tr: &Trace, ex: &mut Exec) {
                             DiscSel::Conn(x) => x == c,
                             DiscSel::Unknown => false,
                         };
+                        if hit {
+                            excused[*c] = true;
+                        }
                         if hit && stalled[*c] {
                             cancelled[*c] = true;
                         }
@@ -642,18 +708,19 @@ fn oracle(_script: &Script, tr: &Trace, ex: &mut Exec) {
                 }
             }
             Op::Send { c, .. } | Op::Raw { c, .. } if *c < nconn && !ended[*c] => {
-                let w = match &st.op {
+                let (w, frame) = match &st.op {
                     Op::Send { dst, batch, ecn, seg, tok, .. } => {
                         let contents = tok_bytes(tok).unwrap();
+                        let frame = encode_datagram(key(*dst).as_bytes(), *batch, *ecn, *seg, &contents);
                         if 32 + 1 + if *batch { 2 } else { 0 } + contents.len() <= 65536 {
                             // what a receiver is entitled to see: ECN reduced to its two bits, segment
                             // size only for batch frames (0 = a single datagram)
-                            Wire::Datagram(*dst, ecn & 3, if *batch { *seg } else { 0 }, contents)
+                            (Wire::Datagram(*dst, ecn & 3, if *batch { *seg } else { 0 }, contents), frame)
                         } else {
-                            Wire::Reject
+                            (Wire::Reject, frame)
                         }
                     }
-                    Op::Raw { bytes, .. } => parse_c2r(bytes),
+                    Op::Raw { bytes, .. } => (parse_c2r(bytes), bytes.clone()),
                     _ => unreachable!(),
                 };
                 match w {
@@ -674,26 +741,37 @@ fn oracle(_script: &Script, tr: &Trace, ex: &mut Exec) {
                             target: None,
                             consumed: false,
                             skipped: false,
+                            frame,
+                            must: false,
                         });
                         let ri = recs.len() - 1;
                         if stalled[*c] {
                             backlog[*c].push(Some(ri));
                         } else {
-                            recs[ri].target = prev.entries.get(&dst).map(|e| e.0);
+                            accept(&mut recs, ri, &prev, &stalled, &mut queued, &mut used, cap);
                         }
                     }
                 }
             }
             Op::Unstall { c } if *c < nconn && stalled[*c] => {
-                stalled[*c] = false;
+                // the resumed actor first reads what its client sent meanwhile — its own packet
+                // queue still holds what was queued while it was stalled — and only then delivers
                 let items = std::mem::take(&mut backlog[*c]);
                 if !cancelled[*c] {
                     for it in items {
-                        let Some(ri) = it else { break };
-                        let dst = recs[ri].dst;
-                        recs[ri].target = prev.entries.get(&dst).map(|e| e.0);
+                        let Some(ri) = it else {
+                            // the stream ended / an undecodable frame: the actor exits before it
+                            // writes anything that is queued for it
+                            excused[*c] = true;
+                            break;
+                        };
+                        accept(&mut recs, ri, &prev, &stalled, &mut queued, &mut used, cap);
                     }
+                } else {
+                    excused[*c] = true;
                 }
+                stalled[*c] = false;
+                queued[*c] = 0;
             }
             _ => {}
         }
@@ -741,8 +819,31 @@ fn oracle(_script: &Script, tr: &Trace, ex: &mut Exec) {
         for &c in &st.ended {
             ended[c] = true;
             stalled[c] = false;
+            excused[c] = true;
         }
         prev = st.snap.clone();
+    }
+    // completeness: everything the relay accepted for a connection that stayed alive and is not
+    // stalled at the end has been delivered on it
+    let mut must_total = 0usize;
+    for x in &recs {
+        if !x.must {
+            continue;
+        }
+        must_total += 1;
+        let Some(t) = x.target else { continue };
+        if !x.consumed && !excused[t] && !stalled[t] {
+            ex.violation(
+                "forwardable-dropped",
+                format!(
+                    "datagram from connection {} (endpoint {}) to endpoint {} with {} bytes (segment size {}) was accepted for connection {t} but never delivered",
+                    x.sender, x.src, x.dst, x.contents.len(), x.seg
+                ),
+            );
+        }
+    }
+    if must_total > 0 {
+        ex.tags.push("completeness-checked".into());
     }
     ex.nontrivial = delivered > 0;
     ex.tags.push(match delivered {
